@@ -1,7 +1,7 @@
 """Model contracts for the NumPy / SciPy / stdlib functions used by functions under contract.
 
 Every entry is an *assumed* contract on a dependency (listed in evidence as trusted base, and
-conformance-tested against the real library by pyvc/conformance.py).  Definitional where possible.
+compared with the real library, in their concrete branch, by the translation cross-check).  Definitional where possible.
 """
 import os
 
@@ -406,7 +406,7 @@ def reduce_sum(eng, st, a, ref=None):
     t = sums.sum_of(eng, st, a)
     info = eng.compress_info.get(ref.oid) if ref is not None else None
     if info is not None and 'phi' in info and info['src'].ndim == 1:
-        eng.trusted_facts.add('model fact: the sum over a[mask] equals the sum over where(mask, a, 0) (boolean-mask selection, conformance-tested)')
+        eng.trusted_facts.add('model fact: the sum over a[mask] equals the sum over where(mask, a, 0) (boolean-mask selection, trusted)')
         st.assume(sums.compress_sum_fact(info['src'], info['mask'], a))
     return t
 
@@ -1020,7 +1020,7 @@ def np_unique(eng, st, args, kwargs):
     # ground instances of the last fact at the first and the last input cell (nothing new; they give the solver the terms it needs)
     for jj in (z3.IntVal(0), nz - 1):
         st.assume(z3.Implies(nz > 0, z3.And(0 <= pos(jj), pos(jj) < k, u(pos(jj)) == cell(jj))))
-    eng.trusted_facts.add('np.unique(a): strictly increasing array with the same set of values as a (library fact, conformance-tested)')
+    eng.trusted_facts.add('np.unique(a): strictly increasing array with the same set of values as a (library fact, trusted)')
     yield new_ref(st, ArrV((k,), lambda t, u=u: u(to_z3(t)), a.dtype)), st
 
 
